@@ -5,4 +5,7 @@ DIR="$(cd "$(dirname "$0")" && pwd)"
 # regenerate the translated tables from the current /repo sources first (stdlib only)
 /venv/bin/python "$DIR/harness/gen_tables.py" "${OPTYX_REPO:-/repo}" "$DIR/lean/Optyx/Generated" || true
 cd "$DIR/lean"
-lake build
+# the root module imports every property module: this builds and kernel-checks all theorems once.
+# Never fatal: on a tree where a proof obligation no longer closes, the checks themselves rebuild what they
+# need and report it (a broken obligation is an outcome of a check, not a set-up error).
+lake build || lake build Optyx.Drive.All || true
